@@ -7,7 +7,7 @@ namespace VT
 /-! ## generic list facts -/
 
 section ListFacts
-variable {α β : Type} [DecidableEq α] [DecidableEq β]
+variable {α β : Type} [BEq α] [LawfulBEq α] [BEq β] [LawfulBEq β]
 
 theorem idxOf_map_of_injOn (f : α → β) (l : List α) (x : α)
     (h : ∀ a ∈ l, f a = f x → a = x) : (l.map f).idxOf (f x) = l.idxOf x := by
@@ -244,9 +244,7 @@ theorem inorder_eq_subtreeAt (t : VTree) :
   | node l r ihl ihr =>
     simp only [inorder, inorderPaths, List.map_append, List.map_cons, List.map_map]
     rw [ihl, ihr]
-    congr 1
-    · apply List.map_congr_left; intro p _; simp [subtreeAt]
-    · apply List.map_congr_left; intro p _; simp [subtreeAt]
+    rfl
 
 /-! ### the in-order relation on root paths -/
 
@@ -294,6 +292,708 @@ theorem pairwise_inorderPaths (t : VTree) :
       obtain ⟨a', _, rfl⟩ := ha
       simp only [List.mem_cons, List.mem_map] at hb
       rcases hb with rfl | ⟨b', _, rfl⟩ <;> simp [inorderLt]
+
+/-! ### breadth-first numbering -/
+
+/-- the absolute root paths of all nodes below the queued subtrees -/
+def queuePaths (q : List (Path × VTree)) : List Path :=
+  q.flatMap fun e => (inorderPaths e.2).map (e.1 ++ ·)
+
+def queueSize (q : List (Path × VTree)) : Nat := (q.map fun e => e.2.size).sum
+
+theorem queueSize_cons (e : Path × VTree) (q : List (Path × VTree)) :
+    queueSize (e :: q) = e.2.size + queueSize q := by simp [queueSize]
+
+theorem queueSize_append (q q' : List (Path × VTree)) :
+    queueSize (q ++ q') = queueSize q + queueSize q' := by simp [queueSize]
+
+theorem bfsLoop_perm : ∀ (fuel : Nat) (q : List (Path × VTree)), queueSize q ≤ fuel →
+    (bfsLoop fuel q).Perm (queuePaths q) := by
+  intro fuel
+  induction fuel with
+  | zero =>
+    intro q hq
+    cases q with
+    | nil => simp [bfsLoop, queuePaths]
+    | cons e q =>
+      rw [queueSize_cons] at hq
+      have := size_pos e.2
+      omega
+  | succ fuel ih =>
+    intro q hq
+    match q with
+    | [] => simp [bfsLoop, queuePaths]
+    | (p, leaf v) :: q' =>
+      rw [queueSize_cons] at hq
+      simp only [size] at hq
+      have := ih q' (by omega)
+      simp only [bfsLoop, queuePaths, List.flatMap_cons, inorderPaths, List.map_cons, List.map_nil,
+        List.append_nil, List.cons_append, List.nil_append]
+      exact List.Perm.cons _ this
+    | (p, node l r) :: q' =>
+      rw [queueSize_cons] at hq
+      simp only [size] at hq
+      have hsz : queueSize (q' ++ [(p ++ [false], l), (p ++ [true], r)]) ≤ fuel := by
+        have h0 : queueSize ([] : List (Path × VTree)) = 0 := rfl
+        rw [queueSize_append, queueSize_cons, queueSize_cons, h0]; dsimp only; omega
+      have := ih _ hsz
+      simp only [bfsLoop]
+      refine (List.Perm.cons p this).trans ?_
+      simp only [queuePaths, List.flatMap_append, List.flatMap_cons, List.flatMap_nil,
+        List.append_nil, inorderPaths, List.map_append, List.map_cons, List.map_map]
+      have e1 : (List.map (fun x => (p ++ [false]) ++ x) l.inorderPaths)
+          = List.map ((fun x => p ++ x) ∘ fun x => false :: x) l.inorderPaths := by
+        apply List.map_congr_left; intro x _; simp
+      have e2 : (List.map (fun x => (p ++ [true]) ++ x) r.inorderPaths)
+          = List.map ((fun x => p ++ x) ∘ fun x => true :: x) r.inorderPaths := by
+        apply List.map_congr_left; intro x _; simp
+      rw [e1, e2]
+      generalize List.map ((fun x => p ++ x) ∘ fun x => false :: x) l.inorderPaths = A
+      generalize List.map ((fun x => p ++ x) ∘ fun x => true :: x) r.inorderPaths = B
+      generalize (List.flatMap (fun e => List.map (fun x => e.1 ++ x) e.2.inorderPaths) q') = Q
+      have h1 : (p :: (Q ++ (A ++ B))).Perm (p :: (A ++ (B ++ Q))) := by
+        apply List.Perm.cons
+        rw [← List.append_assoc A B Q]
+        exact List.perm_append_comm
+      refine h1.trans ?_
+      rw [List.append_assoc]
+      simpa using (List.perm_middle (a := p) (l₁ := A) (l₂ := B ++ Q)).symm
+
+theorem bfsPaths_perm (t : VTree) : (bfsPaths t).Perm (inorderPaths t) := by
+  have := bfsLoop_perm t.size [([], t)] (by simp [queueSize])
+  simpa [bfsPaths, queuePaths] using this
+
+theorem mem_bfsPaths {t : VTree} {p : Path} : p ∈ bfsPaths t ↔ Valid t p :=
+  (bfsPaths_perm t).mem_iff.trans mem_inorderPaths
+
+theorem nodup_bfsPaths (t : VTree) : (bfsPaths t).Nodup :=
+  (bfsPaths_perm t).symm.nodup (nodup_inorderPaths t)
+
+theorem length_bfsPaths (t : VTree) : (bfsPaths t).length = t.size :=
+  (bfsPaths_perm t).length_eq.trans (length_inorderPaths t)
+
+/-- every path output by the queue traversal is at least as long as the shortest queued one -/
+theorem bfsLoop_length_ge (m : Nat) : ∀ (fuel : Nat) (q : List (Path × VTree)),
+    (∀ e ∈ q, m ≤ e.1.length) → ∀ x ∈ bfsLoop fuel q, m ≤ x.length := by
+  intro fuel
+  induction fuel with
+  | zero => intro q _ x hx; simp [bfsLoop] at hx
+  | succ fuel ih =>
+    intro q hq x hx
+    match q with
+    | [] => simp [bfsLoop] at hx
+    | (p, leaf v) :: q' =>
+      simp only [bfsLoop, List.mem_cons] at hx
+      rcases hx with rfl | hx
+      · exact hq (x, leaf v) (by simp)
+      · exact ih q' (fun e he => hq e (by simp [he])) x hx
+    | (p, node l r) :: q' =>
+      simp only [bfsLoop, List.mem_cons] at hx
+      have hp : m ≤ p.length := hq (p, node l r) (by simp)
+      rcases hx with rfl | hx
+      · exact hp
+      · refine ih _ ?_ x hx
+        intro e he
+        simp only [List.mem_append, List.mem_cons, List.not_mem_nil, or_false] at he
+        rcases he with he | rfl | rfl
+        · exact hq e (by simp [he])
+        · simp; omega
+        · simp; omega
+
+/-- queue invariant: sorted by depth, spanning at most two consecutive depths -/
+def QInv (q : List (Path × VTree)) : Prop :=
+  q.Pairwise (fun x y => x.1.length ≤ y.1.length) ∧ ∀ x ∈ q, ∀ y ∈ q, y.1.length ≤ x.1.length + 1
+
+theorem qinv_step {p : Path} {t : VTree} {q : List (Path × VTree)} (h : QInv ((p, t) :: q))
+    (cs : List (Path × VTree)) (hcs : ∀ c ∈ cs, c.1.length = p.length + 1) : QInv (q ++ cs) := by
+  obtain ⟨h1, h2⟩ := h
+  rw [List.pairwise_cons] at h1
+  have hge : ∀ x ∈ q, p.length ≤ x.1.length := fun x hx => h1.1 x hx
+  have hle : ∀ x ∈ q, x.1.length ≤ p.length + 1 := fun x hx => h2 (p, t) (by simp) x (by simp [hx])
+  refine ⟨?_, ?_⟩
+  · rw [List.pairwise_append]
+    refine ⟨h1.2, ?_, ?_⟩
+    · rw [List.pairwise_iff_forall_sublist]
+      intro a b hab
+      have ha := hcs a (hab.subset (by simp))
+      have hb := hcs b (hab.subset (by simp))
+      omega
+    · intro a ha b hb
+      have := hle a ha; have := hcs b hb; omega
+  · intro x hx y hy
+    rw [List.mem_append] at hx hy
+    have hx' : p.length ≤ x.1.length := by
+      rcases hx with hx | hx
+      · exact hge x hx
+      · have := hcs x hx; omega
+    have hy' : y.1.length ≤ p.length + 1 := by
+      rcases hy with hy | hy
+      · exact hle y hy
+      · have := hcs y hy; omega
+    omega
+
+theorem bfsLoop_sorted : ∀ (fuel : Nat) (q : List (Path × VTree)), QInv q →
+    (bfsLoop fuel q).Pairwise (fun x y => x.length ≤ y.length) := by
+  intro fuel
+  induction fuel with
+  | zero => intro q _; simp [bfsLoop]
+  | succ fuel ih =>
+    intro q hq
+    match q with
+    | [] => simp [bfsLoop]
+    | (p, leaf v) :: q' =>
+      simp only [bfsLoop]
+      have hq' : QInv (q' ++ []) := qinv_step hq [] (by simp)
+      rw [List.append_nil] at hq'
+      rw [List.pairwise_cons]
+      refine ⟨?_, ih q' hq'⟩
+      apply bfsLoop_length_ge
+      intro e he
+      have := hq.1
+      rw [List.pairwise_cons] at this
+      exact this.1 e he
+    | (p, node l r) :: q' =>
+      simp only [bfsLoop]
+      have hq' : QInv (q' ++ [(p ++ [false], l), (p ++ [true], r)]) :=
+        qinv_step hq _ (by simp)
+      rw [List.pairwise_cons]
+      refine ⟨?_, ih _ hq'⟩
+      apply bfsLoop_length_ge
+      intro e he
+      have := hq.1
+      rw [List.pairwise_cons] at this
+      simp only [List.mem_append, List.mem_cons, List.not_mem_nil, or_false] at he
+      rcases he with he | rfl | rfl
+      · exact this.1 e he
+      · simp
+      · simp
+
+theorem bfsPaths_sorted (t : VTree) : (bfsPaths t).Pairwise (fun x y => x.length ≤ y.length) := by
+  apply bfsLoop_sorted
+  refine ⟨by simp, ?_⟩
+  intro x hx y hy
+  simp only [List.mem_singleton] at hx hy
+  subst hx; subst hy; omega
+
+/-- a shallower node has the smaller BFS index -/
+theorem bfsLabel_lt_of_length_lt {t : VTree} {c x : Path} (hc : Valid t c) (hx : Valid t x)
+    (h : c.length < x.length) : bfsLabel t c < bfsLabel t x := by
+  unfold bfsLabel
+  have hcm := mem_bfsPaths.mpr hc
+  have hxm := mem_bfsPaths.mpr hx
+  have hci := List.idxOf_lt_length_of_mem hcm
+  have hxi := List.idxOf_lt_length_of_mem hxm
+  rcases Nat.lt_trichotomy ((bfsPaths t).idxOf c) ((bfsPaths t).idxOf x) with hlt | heq | hgt
+  · exact hlt
+  · have := idxOf_inj hcm heq; subst this; omega
+  · have hs := bfsPaths_sorted t
+    rw [List.pairwise_iff_getElem] at hs
+    have := hs _ _ hxi hci hgt
+    rw [List.getElem_idxOf hxi, List.getElem_idxOf hci] at this
+    omega
+
+/-- an ancestor's BFS index is at most the descendant's -/
+theorem bfsLabel_le_of_prefix {t : VTree} {c x : Path} (hx : Valid t x) (h : c <+: x) :
+    bfsLabel t c ≤ bfsLabel t x := by
+  have hc := valid_of_prefix h hx
+  rcases Nat.lt_or_ge c.length x.length with hl | hl
+  · exact Nat.le_of_lt (bfsLabel_lt_of_length_lt hc hx hl)
+  · have : c = x := h.eq_of_length_le hl
+    subst this; exact Nat.le_refl _
+
+/-! ### the Euler tour -/
+
+theorem mem_eulerPaths {t : VTree} {p : Path} : p ∈ eulerPaths t ↔ Valid t p := by
+  induction t generalizing p with
+  | leaf v => cases p <;> simp [eulerPaths]
+  | node l r ihl ihr =>
+    cases p with
+    | nil => simp [eulerPaths]
+    | cons b p =>
+      cases b <;> simp [eulerPaths, ihl, ihr]
+
+theorem cons_inj_path (b : Bool) : ∀ p q : Path, b :: p = b :: q → p = q := by
+  intro p q h; simpa using h
+
+theorem eulerPaths_node (l r : VTree) :
+    eulerPaths (node l r) =
+      [[]] ++ ((eulerPaths l).map (false :: ·) ++ ([[]] ++ ((eulerPaths r).map (true :: ·) ++ [[]]))) := rfl
+
+theorem idxOf_euler_nil (t : VTree) : (eulerPaths t).idxOf [] = 0 := by
+  cases t <;> simp [eulerPaths]
+
+theorem idxOf_euler_false (l r : VTree) (x : Path) (hx : x ∈ eulerPaths l) :
+    (eulerPaths (node l r)).idxOf (false :: x) = (eulerPaths l).idxOf x + 1 := by
+  rw [eulerPaths_node, List.idxOf_append, if_neg (by simp), List.idxOf_append,
+    if_pos (by simpa using hx), idxOf_map_of_injOn _ _ _ (fun a _ e => cons_inj_path _ _ _ e)]
+  simp
+
+theorem idxOf_euler_true (l r : VTree) (x : Path) (hx : x ∈ eulerPaths r) :
+    (eulerPaths (node l r)).idxOf (true :: x) = (eulerPaths l).length + 2 + (eulerPaths r).idxOf x := by
+  rw [eulerPaths_node, List.idxOf_append, if_neg (by simp), List.idxOf_append,
+    if_neg (by simp), List.idxOf_append, if_neg (by simp), List.idxOf_append,
+    if_pos (by simpa using hx), idxOf_map_of_injOn _ _ _ (fun a _ e => cons_inj_path _ _ _ e)]
+  simp; omega
+
+/-- on the Euler segment from the first occurrence of `x` up to (excluding) the first occurrence
+of `y`, the deepest common ancestor occurs and every entry is one of its descendants.  The
+half-open segment suffices: if `x` is first seen before `y` then `y` is not an ancestor of `x`,
+so the common ancestor is `x` itself (position `first x`) or lies strictly between. -/
+theorem euler_between (t : VTree) : ∀ (x y : Path), Valid t x → Valid t y →
+    (eulerPaths t).idxOf x < (eulerPaths t).idxOf y →
+    commonPrefix x y ∈ between (eulerPaths t) x y ∧
+      ∀ z ∈ between (eulerPaths t) x y, commonPrefix x y <+: z := by
+  induction t with
+  | leaf v =>
+    intro x y hx hy hlt
+    cases x with
+    | cons a x => simp at hx
+    | nil =>
+      cases y with
+      | cons b y => simp at hy
+      | nil => omega
+  | node l r ihl ihr =>
+    intro x y hx hy hlt
+    cases x with
+    | nil =>
+      refine ⟨?_, fun z _ => by cases y <;> simp [commonPrefix]⟩
+      have hc : commonPrefix [] y = [] := by cases y <;> rfl
+      rw [hc]
+      rw [idxOf_euler_nil] at hlt
+      unfold between
+      rw [idxOf_euler_nil]
+      obtain ⟨k, hk⟩ : ∃ k, (eulerPaths (node l r)).idxOf y = k + 1 := ⟨_, (Nat.succ_pred_eq_of_pos hlt).symm⟩
+      rw [hk]
+      simp [eulerPaths]
+    | cons a x =>
+      cases y with
+      | nil => rw [idxOf_euler_nil] at hlt; omega
+      | cons b y =>
+        cases a <;> cases b
+        · -- both in the left subtree
+          simp only [valid_node_false] at hx hy
+          have hxm := mem_eulerPaths.mpr hx
+          have hym := mem_eulerPaths.mpr hy
+          rw [idxOf_euler_false _ _ _ hxm, idxOf_euler_false _ _ _ hym] at hlt
+          have ih := ihl x y hx hy (by omega)
+          have hb : between (eulerPaths (node l r)) (false :: x) (false :: y)
+              = (between (eulerPaths l) x y).map (false :: ·) := by
+            rw [eulerPaths_node, between_append_right (by simp) (by simp),
+              between_append_left (by simpa using hxm) (by simpa using hym),
+              between_map _ (cons_inj_path false)]
+          rw [hb]
+          simp only [commonPrefix, if_true]
+          refine ⟨List.mem_map.mpr ⟨_, ih.1, rfl⟩, ?_⟩
+          intro z hz
+          obtain ⟨z', hz', rfl⟩ := List.mem_map.mp hz
+          rw [List.cons_prefix_cons]
+          exact ⟨rfl, ih.2 z' hz'⟩
+        · -- `x` left, `y` right: the node itself separates them
+          simp only [valid_node_false] at hx
+          simp only [valid_node_true] at hy
+          have hxm := mem_eulerPaths.mpr hx
+          have hym := mem_eulerPaths.mpr hy
+          refine ⟨?_, fun z _ => by simp [commonPrefix]⟩
+          have hc : commonPrefix (false :: x) (true :: y) = [] := by simp [commonPrefix]
+          rw [hc, eulerPaths_node, between_append_right (by simp) (by simp),
+            between_append_split (by simpa using hxm) (by simp)]
+          apply List.mem_append_right
+          rw [List.idxOf_append, if_neg (by simp)]
+          simp
+        · -- `x` right, `y` left: impossible
+          simp only [valid_node_true] at hx
+          simp only [valid_node_false] at hy
+          have hxm := mem_eulerPaths.mpr hx
+          have hym := mem_eulerPaths.mpr hy
+          rw [idxOf_euler_true _ _ _ hxm, idxOf_euler_false _ _ _ hym] at hlt
+          have := List.idxOf_lt_length_of_mem hym
+          omega
+        · -- both in the right subtree
+          simp only [valid_node_true] at hx hy
+          have hxm := mem_eulerPaths.mpr hx
+          have hym := mem_eulerPaths.mpr hy
+          rw [idxOf_euler_true _ _ _ hxm, idxOf_euler_true _ _ _ hym] at hlt
+          have ih := ihr x y hx hy (by omega)
+          have hb : between (eulerPaths (node l r)) (true :: x) (true :: y)
+              = (between (eulerPaths r) x y).map (true :: ·) := by
+            rw [eulerPaths_node, between_append_right (by simp) (by simp),
+              between_append_right (by simp) (by simp),
+              between_append_right (by simp) (by simp),
+              between_append_left (by simpa using hxm) (by simpa using hym),
+              between_map _ (cons_inj_path true)]
+          rw [hb]
+          simp only [commonPrefix, if_true]
+          refine ⟨List.mem_map.mpr ⟨_, ih.1, rfl⟩, ?_⟩
+          intro z hz
+          obtain ⟨z', hz', rfl⟩ := List.mem_map.mp hz
+          rw [List.cons_prefix_cons]
+          exact ⟨rfl, ih.2 z' hz'⟩
+
+end VTree
+
+/-! ## least common ancestors -/
+
+theorem getD_map_of_lt {α β : Type} (f : α → β) (l : List α) (i : Nat) (d : β) (h : i < l.length) :
+    (l.map f).getD i d = f l[i] := by
+  simp [List.getD_eq_getElem?_getD, h]
+
+theorem getD_of_lt {α : Type} (l : List α) (i : Nat) (d : α) (h : i < l.length) :
+    l.getD i d = l[i] := by
+  simp [List.getD_eq_getElem?_getD, h]
+
+theorem rangeMin_map_between (f : Path → Nat) (E : List Path) (x y c : Path)
+    (hc : c ∈ between E x y) (hle : ∀ z ∈ between E x y, f c ≤ f z) :
+    rangeMin (E.map f) (E.idxOf x) (E.idxOf y) = f c := by
+  unfold rangeMin
+  have hseg : ((E.map f).drop (E.idxOf x)).take (E.idxOf y - E.idxOf x) = (between E x y).map f := by
+    unfold between; rw [List.map_take, List.map_drop]
+  rw [hseg]
+  generalize between E x y = seg at hc hle
+  match seg, hc, hle with
+  | [], hc, _ => simp at hc
+  | a :: as, hc, hle =>
+    simp only [List.map_cons]
+    apply foldl_min_eq
+    · rw [← List.map_cons]; exact List.mem_map.mpr ⟨c, hc, rfl⟩
+    · intro z hz
+      rw [← List.map_cons] at hz
+      obtain ⟨z', hz', rfl⟩ := List.mem_map.mp hz
+      exact hle z' hz'
+
+/-- specification: the in-order index of the deepest common ancestor (longest common prefix of
+the two root paths) -/
+def lcaSpec (t : VTree) (i j : Nat) : Nat :=
+  (VTree.inorderPaths t).idxOf
+    (commonPrefix ((VTree.inorderPaths t).getD i []) ((VTree.inorderPaths t).getD j []))
+
+namespace VTree
+
+theorem bfsLabel_lt {t : VTree} {p : Path} (hp : Valid t p) : bfsLabel t p < t.size := by
+  rw [← length_bfsPaths]; exact List.idxOf_lt_length_of_mem (mem_bfsPaths.mpr hp)
+
+theorem bfsLabel_inj {t : VTree} {p q : Path} (hp : Valid t p) (h : bfsLabel t p = bfsLabel t q) :
+    p = q := idxOf_inj (mem_bfsPaths.mpr hp) h
+
+theorem eulerVec_idxOf {t : VTree} {p : Path} (_hp : Valid t p) :
+    (eulerVec t).idxOf (bfsLabel t p) = (eulerPaths t).idxOf p := by
+  unfold eulerVec
+  apply idxOf_map_of_injOn
+  intro a ha e
+  exact bfsLabel_inj (mem_eulerPaths.mp ha) e
+
+theorem indexMap_getD {t : VTree} {p : Path} (hp : Valid t p) :
+    (indexMap t).getD (bfsLabel t p) 0 = (eulerPaths t).idxOf p := by
+  unfold indexMap
+  rw [getD_map_of_lt _ _ _ _ (by simpa using bfsLabel_lt hp)]
+  simp [eulerVec_idxOf hp]
+
+theorem lcaBfs_lt_case {t : VTree} {x y : Path} (hx : Valid t x) (hy : Valid t y)
+    (hlt : (eulerPaths t).idxOf x < (eulerPaths t).idxOf y) :
+    rangeMin (eulerVec t) ((eulerPaths t).idxOf x) ((eulerPaths t).idxOf y)
+      = bfsLabel t (commonPrefix x y) := by
+  obtain ⟨h1, h2⟩ := euler_between t x y hx hy hlt
+  unfold eulerVec
+  apply rangeMin_map_between _ _ _ _ _ h1
+  intro z hz
+  have hzE : z ∈ eulerPaths t := by
+    unfold between at hz
+    exact List.mem_of_mem_drop (List.mem_of_mem_take hz)
+  exact bfsLabel_le_of_prefix (mem_eulerPaths.mp hzE) (h2 z hz)
+
+theorem lcaBfs_eq {t : VTree} {x y : Path} (hx : Valid t x) (hy : Valid t y) :
+    (VTreeManager.new t).lcaBfs (bfsLabel t x) (bfsLabel t y) = bfsLabel t (commonPrefix x y) := by
+  unfold VTreeManager.lcaBfs
+  by_cases he : bfsLabel t x = bfsLabel t y
+  · have := bfsLabel_inj hx he
+    subst this
+    simp
+  · rw [if_neg he]
+    show (if (indexMap t).getD (bfsLabel t x) 0 < (indexMap t).getD (bfsLabel t y) 0 then
+        rangeMin (eulerVec t) ((indexMap t).getD (bfsLabel t x) 0) ((indexMap t).getD (bfsLabel t y) 0)
+      else rangeMin (eulerVec t) ((indexMap t).getD (bfsLabel t y) 0) ((indexMap t).getD (bfsLabel t x) 0)) = _
+    rw [indexMap_getD hx, indexMap_getD hy]
+    have hne : (eulerPaths t).idxOf x ≠ (eulerPaths t).idxOf y := by
+      intro e
+      exact he (congrArg _ (idxOf_inj (mem_eulerPaths.mpr hx) e))
+    by_cases hlt : (eulerPaths t).idxOf x < (eulerPaths t).idxOf y
+    · rw [if_pos hlt]; exact lcaBfs_lt_case hx hy hlt
+    · rw [if_neg hlt, commonPrefix_comm]
+      exact lcaBfs_lt_case hy hx (by omega)
+
+theorem bfsToDfs_getD {t : VTree} {p : Path} (hp : Valid t p) :
+    (bfsToDfs t).getD (bfsLabel t p) 0 = dfsLabel t p := by
+  unfold bfsToDfs
+  have hlt : bfsLabel t p < (bfsPaths t).length := by rw [length_bfsPaths]; exact bfsLabel_lt hp
+  rw [getD_map_of_lt _ _ _ _ hlt]
+  congr 1
+  exact List.getElem_idxOf hlt
+
+theorem dfsToBfs_getD {t : VTree} {i : Nat} (hi : i < (inorderPaths t).length) :
+    (dfsToBfs t).getD i 0 = bfsLabel t (inorderPaths t)[i] := by
+  unfold dfsToBfs
+  exact getD_map_of_lt _ _ _ _ hi
+
+theorem valid_inorderPaths_getElem (t : VTree) (i : Nat) (hi : i < (inorderPaths t).length) :
+    Valid t (inorderPaths t)[i] := mem_inorderPaths.mp (List.getElem_mem hi)
+
+end VTree
+
+/-- **`VTreeManager::lca` is correct**: on in-order indices it returns the in-order index of the
+deepest common ancestor -/
+theorem lca_correct (t : VTree) (i j : Nat) (hi : i < t.size) (hj : j < t.size) :
+    (VTreeManager.new t).lca i j = lcaSpec t i j := by
+  have hi' : i < (VTree.inorderPaths t).length := by rw [VTree.length_inorderPaths]; exact hi
+  have hj' : j < (VTree.inorderPaths t).length := by rw [VTree.length_inorderPaths]; exact hj
+  have vi := VTree.valid_inorderPaths_getElem t i hi'
+  have vj := VTree.valid_inorderPaths_getElem t j hj'
+  unfold VTreeManager.lca lcaSpec
+  show (VTree.bfsToDfs t).getD ((VTreeManager.new t).lcaBfs ((VTree.dfsToBfs t).getD i 0)
+      ((VTree.dfsToBfs t).getD j 0)) 0 = _
+  rw [VTree.dfsToBfs_getD hi', VTree.dfsToBfs_getD hj', VTree.lcaBfs_eq vi vj,
+    VTree.bfsToDfs_getD (VTree.valid_of_prefix (commonPrefix_prefix_left _ _) vi),
+    getD_of_lt _ _ _ hi', getD_of_lt _ _ _ hj']
+  rfl
+
+/-! ## in-order index table, prime/sub relation, variable count -/
+
+namespace VTree
+
+def leafLabel? : VTree → Option Nat
+  | leaf v => some v
+  | node _ _ => none
+
+theorem leaves_eq_filterMap (t : VTree) : t.leaves = t.inorder.filterMap leafLabel? := by
+  induction t with
+  | leaf v => rfl
+  | node l r ihl ihr =>
+    simp only [leaves, inorder, List.filterMap_append, ihl, ihr, List.filterMap_cons]
+    rfl
+
+theorem lookupLoop_length (L : List VTree) (i : Nat) (tbl : List Nat) :
+    (lookupLoop L i tbl).length = tbl.length := by
+  induction L generalizing i tbl with
+  | nil => rfl
+  | cons s L ih => cases s <;> simp [lookupLoop, ih]
+
+theorem lookupLoop_getD_of_not_mem (L : List VTree) (i : Nat) (tbl : List Nat) (v : Nat)
+    (h : v ∉ L.filterMap leafLabel?) : (lookupLoop L i tbl).getD v 0 = tbl.getD v 0 := by
+  induction L generalizing i tbl with
+  | nil => rfl
+  | cons s L ih =>
+    cases s with
+    | leaf w =>
+      simp only [List.filterMap_cons, leafLabel?, List.mem_cons, not_or] at h
+      simp only [lookupLoop]
+      rw [ih _ _ h.2]
+      simp only [List.getD_eq_getElem?_getD, List.getElem?_set]
+      have : ¬ w = v := fun e => h.1 e.symm
+      simp [this]
+    | node a b =>
+      simp only [List.filterMap_cons, leafLabel?] at h
+      simp only [lookupLoop]
+      exact ih _ _ h
+
+theorem lookupLoop_getD (L : List VTree) (i : Nat) (tbl : List Nat) (v k : Nat)
+    (hn : (L.filterMap leafLabel?).Nodup) (hk : L[k]? = some (leaf v)) (hv : v < tbl.length) :
+    (lookupLoop L i tbl).getD v 0 = i + k := by
+  induction L generalizing i tbl k with
+  | nil => simp at hk
+  | cons s L ih =>
+    cases k with
+    | zero =>
+      simp only [List.getElem?_cons_zero, Option.some.injEq] at hk
+      subst hk
+      simp only [List.filterMap_cons, leafLabel?, List.nodup_cons] at hn
+      simp only [lookupLoop]
+      rw [lookupLoop_getD_of_not_mem _ _ _ _ hn.1]
+      simp [List.getD_eq_getElem?_getD, hv]
+    | succ k =>
+      simp only [List.getElem?_cons_succ] at hk
+      cases s with
+      | leaf w =>
+        simp only [List.filterMap_cons, leafLabel?, List.nodup_cons] at hn
+        simp only [lookupLoop]
+        rw [ih (i + 1) _ k hn.2 hk (by simpa using hv)]
+        omega
+      | node a b =>
+        simp only [List.filterMap_cons, leafLabel?] at hn
+        simp only [lookupLoop]
+        rw [ih (i + 1) _ k hn hk hv]
+        omega
+
+theorem lt_numVarsTree_of_mem_leaves {t : VTree} {v : Nat} (h : v ∈ t.leaves) : v < t.numVarsTree := by
+  induction t with
+  | leaf w => simp [leaves] at h; subst h; simp [numVarsTree]
+  | node l r ihl ihr =>
+    simp only [leaves, List.mem_append] at h
+    simp only [numVarsTree]
+    rcases h with h | h
+    · have := ihl h; omega
+    · have := ihr h; omega
+
+theorem maxLabel_mem (t : VTree) : t.maxLabel ∈ t.leaves := by
+  induction t with
+  | leaf v => simp [maxLabel, leaves]
+  | node l r ihl ihr =>
+    simp only [maxLabel, leaves, List.mem_append]
+    rcases Nat.le_total l.maxLabel r.maxLabel with h | h
+    · rw [Nat.max_eq_right h]; exact Or.inr ihr
+    · rw [Nat.max_eq_left h]; exact Or.inl ihl
+
+theorem le_maxLabel {t : VTree} {v : Nat} (h : v ∈ t.leaves) : v ≤ t.maxLabel := by
+  induction t with
+  | leaf w => simp [leaves] at h; subst h; simp [maxLabel]
+  | node l r ihl ihr =>
+    simp only [leaves, List.mem_append] at h
+    simp only [maxLabel]
+    rcases h with h | h
+    · have := ihl h; omega
+    · have := ihr h; omega
+
+theorem leaves_nonempty (t : VTree) : t.leaves ≠ [] := by
+  intro h; have := maxLabel_mem t; rw [h] at this; simp at this
+
+/-! ### the prime/sub relation in terms of the tree shape -/
+
+theorem inorderLt_append (c p q : Path) : inorderLt (c ++ p) (c ++ q) = inorderLt p q := by
+  induction c with
+  | nil => rfl
+  | cons a c ih => simp [inorderLt, ih]
+
+/-- `p` before `q` in in-order iff, with `c` their deepest common ancestor, `p` lies in the left
+subtree of `c` and `q` is `c` or lies in its right subtree, or `p` is `c` and `q` lies in its right
+subtree -/
+theorem inorderLt_iff (p q : Path) : inorderLt p q = true ↔
+    ((∃ a, p = commonPrefix p q ++ false :: a) ∧
+        (q = commonPrefix p q ∨ ∃ b, q = commonPrefix p q ++ true :: b)) ∨
+      (p = commonPrefix p q ∧ ∃ b, q = commonPrefix p q ++ true :: b) := by
+  induction p generalizing q with
+  | nil =>
+    cases q with
+    | nil => simp [inorderLt, commonPrefix]
+    | cons b q => cases b <;> simp [inorderLt, commonPrefix]
+  | cons a p ih =>
+    cases q with
+    | nil => cases a <;> simp [inorderLt, commonPrefix]
+    | cons b q =>
+      cases a <;> cases b <;> simp [inorderLt, commonPrefix] <;> exact ih q
+
+end VTree
+
+/-- the index table is the in-order numbering: entry `i` is the subtree at the `i`-th in-order path -/
+theorem indexLookup_spec (t : VTree) (i : Nat) (hi : i < t.size) :
+    (VTreeManager.new t).vtree i = t.subtreeAt ((VTree.inorderPaths t).getD i []) := by
+  have h := VTree.inorder_eq_subtreeAt t
+  have hi1 : i < t.inorder.length := by rw [VTree.length_inorder]; exact hi
+  have hi2 : i < (VTree.inorderPaths t).length := by rw [VTree.length_inorderPaths]; exact hi
+  have := congrArg (fun l => l[i]?) h
+  simp only [List.getElem?_map] at this
+  rw [getD_of_lt _ _ _ hi2]
+  show t.inorder[i]? = _
+  rw [List.getElem?_eq_getElem hi1] at this ⊢
+  rw [List.getElem?_eq_getElem hi2] at this
+  simpa using this
+
+/-- a leaf's variable is mapped to the leaf's in-order index (leaf labels distinct, as
+`VTreeManager::new` asserts) -/
+theorem varIndex_spec (t : VTree) (hn : t.leaves.Nodup) (i v : Nat)
+    (h : (VTreeManager.new t).vtree i = some (.leaf v)) :
+    (VTreeManager.new t).getVarlabelIdx v = i := by
+  have hmem : v ∈ t.leaves := by
+    rw [VTree.leaves_eq_filterMap, List.mem_filterMap]
+    exact ⟨.leaf v, List.mem_of_getElem? h, rfl⟩
+  have := VTree.lookupLoop_getD t.inorder 0 (List.replicate t.numVarsTree 0) v i
+    (by rw [← VTree.leaves_eq_filterMap]; exact hn) h
+    (by simpa using VTree.lt_numVarsTree_of_mem_leaves hmem)
+  simpa [VTreeManager.getVarlabelIdx, VTreeManager.new] using this
+
+/-- `is_prime_index(i, j)` holds exactly when node `i` precedes node `j` in the in-order shape
+relation (`VTree.inorderLt_iff` unfolds it in terms of the common ancestor) -/
+theorem isPrimeIndex_spec (t : VTree) (i j : Nat) (hi : i < t.size) (hj : j < t.size) :
+    (VTreeManager.new t).isPrimeIndex i j =
+      VTree.inorderLt ((VTree.inorderPaths t).getD i []) ((VTree.inorderPaths t).getD j []) := by
+  have hi' : i < (VTree.inorderPaths t).length := by rw [VTree.length_inorderPaths]; exact hi
+  have hj' : j < (VTree.inorderPaths t).length := by rw [VTree.length_inorderPaths]; exact hj
+  rw [getD_of_lt _ _ _ hi', getD_of_lt _ _ _ hj']
+  have hs := VTree.pairwise_inorderPaths t
+  rw [List.pairwise_iff_getElem] at hs
+  unfold VTreeManager.isPrimeIndex
+  rcases Nat.lt_trichotomy i j with h | h | h
+  · simp [h, hs i j hi' hj' h]
+  · subst h; simp [VTree.inorderLt_irrefl]
+  · have := VTree.inorderLt_asymm _ _ (hs j i hj' hi' h)
+    simp [this]; omega
+
+/-- `num_vars()` is one more than the largest leaf label -/
+theorem numVars_eq (t : VTree) :
+    (VTreeManager.new t).numVars = t.maxLabel + 1 ∧ t.maxLabel ∈ t.leaves ∧
+      ∀ v ∈ t.leaves, v ≤ t.maxLabel :=
+  ⟨rfl, VTree.maxLabel_mem t, fun _ h => VTree.le_maxLabel h⟩
+
+/-- when the labels are exactly `0..n-1`, each once, `num_vars()` is `n`, the number of leaves -/
+theorem numVars_of_perm (t : VTree) (n : Nat) (h : t.leaves.Perm (List.range n)) :
+    (VTreeManager.new t).numVars = n ∧ t.leaves.length = n := by
+  have hlen : t.leaves.length = n := by simpa using h.length_eq
+  refine ⟨?_, hlen⟩
+  have hpos : 0 < n := by
+    rcases Nat.eq_zero_or_pos n with h0 | h0
+    · subst h0
+      have := VTree.leaves_nonempty t
+      simp at hlen; exact absurd hlen this
+    · exact h0
+  have h1 : t.maxLabel < n := by
+    have := h.mem_iff.mp (VTree.maxLabel_mem t); simpa using this
+  have h2 : n - 1 ≤ t.maxLabel :=
+    VTree.le_maxLabel (h.mem_iff.mpr (by simp; omega))
+  show t.maxLabel + 1 = n
+  omega
+
+/-! ## the vtree shapes the library builds have the given variable list as leaves -/
+
+namespace VTree
+
+theorem rightLinear_leaves : ∀ (o : List Nat) (t : VTree), rightLinear o = some t → t.leaves = o
+  | [], t, h => by simp [rightLinear] at h
+  | [x], t, h => by simp [rightLinear] at h; subst h; rfl
+  | x :: y :: rest, t, h => by
+    simp only [rightLinear, Option.map_eq_some_iff] at h
+    obtain ⟨r, hr, rfl⟩ := h
+    simp [leaves, rightLinear_leaves (y :: rest) r hr]
+
+theorem rightLinear_isSome : ∀ (o : List Nat), o ≠ [] → (rightLinear o).isSome
+  | [], h => by simp at h
+  | [x], _ => rfl
+  | x :: y :: rest, _ => by
+    have := rightLinear_isSome (y :: rest) (by simp)
+    simp only [rightLinear, Option.isSome_map]
+    exact this
+
+theorem leaves_foldl_leftLinear (xs : List Nat) (t : VTree) :
+    (xs.foldl (fun t y => node t (leaf y)) t).leaves = t.leaves ++ xs := by
+  induction xs generalizing t with
+  | nil => simp
+  | cons x xs ih => simp [ih, leaves]
+
+theorem leftLinear_leaves (o : List Nat) (t : VTree) (h : leftLinear o = some t) : t.leaves = o := by
+  cases o with
+  | nil => simp [leftLinear] at h
+  | cons x xs =>
+    simp only [leftLinear, Option.some.injEq] at h
+    subst h
+    simp [leaves_foldl_leftLinear, leaves]
+
+theorem evenSplit_leaves (k : Nat) : ∀ (o : List Nat) (t : VTree), evenSplit o k = some t → t.leaves = o := by
+  induction k with
+  | zero => intro o t h; exact rightLinear_leaves o t h
+  | succ k ih =>
+    intro o t h
+    simp only [evenSplit] at h
+    split at h
+    · rename_i l r hl hr
+      simp only [Option.some.injEq] at h
+      subst h
+      simp [leaves, ih _ _ hl, ih _ _ hr]
+    · simp at h
 
 end VTree
 
